@@ -292,8 +292,13 @@ func TestC10Regress(t *testing.T) {
 			Flow   string `json:"flow"`
 			Cancel int    `json:"cancel_after_ms"`
 			Right  bool   `json:"right_password"`
+			Conc   int    `json:"concurrent_logins"`
 		}
 		mustUnmarshal(t, s, &probe)
+		if probe.Conc > 0 {
+			runC10Concurrent(t)
+			continue
+		}
 		if probe.Flow != "" {
 			runC10Cancel(t, probe.Flow, probe.Cancel, probe.Right)
 			continue
